@@ -374,6 +374,10 @@ def extra_valid_int(ctx, rec):
         if rep % 2 == 0:
             c["x"] = [v for v in c["x"] if v != gen_qc.NA]
             conc = {"unit": 1.0, "off": 0, "tbase": 0, "xc": "i64"}
+            if rep % 4 == 2:
+                # integer data between bounds that are not whole numbers (quarters): data = multiples of 4 quarter units
+                c["x"] = [4 * (v // 4) for v in c["x"]] + [0, 4, -4]
+                conc = {"unit": 0.25, "off": 0, "tbase": 0, "xc": "i64"}
         else:
             conc = {"unit": 1.0, "off": 0, "tbase": 0, "xc": ["list_none", "list_nan", "tuple_nan"][rep % 3], "dtype": "float64"}
         rec.session([({"kind": "base", "i": 0, "k": 0}, c)], conc)
